@@ -13,6 +13,7 @@ from pyvc.symex import untag
 
 XSRC = z3.Function('XSRC', z3.IntSort(), z3.IntSort(), z3.IntSort(), F32)
 HSRC = z3.Function('HSRC', z3.IntSort(), z3.IntSort(), z3.IntSort())
+IBM2IEEE = z3.Function('IBM2IEEE', F32, F32)      # segyio.tools.native(format=1): IBM float bits -> native float32 (AX-SEGYIO-NATIVE)
 
 
 def src(i, x, z):
@@ -40,7 +41,7 @@ def mk_segy(c, nI, nX, nZ, two_d=False, nT=None):
     samples = SArray((nZ,), lambda idx: idx[0], 'float64')
     f.fields.update(ilines=il, xlines=xl, samples=samples, tracecount=(nT if two_d else ops_binop('*', nI, nX)),
                     filename='<segy>', unstructured=two_d, structured=not two_d, two_d=two_d, dims=(nI, nX, nZ), nT=nT)
-    for nm in ('iline', 'header', 'trace'):
+    for nm in ('iline', 'header', 'trace', 'bin'):
         acc = SObj(None, clsname='$segy.' + nm)
         acc.fields['file'] = f
         f.fields[nm] = acc
@@ -138,6 +139,12 @@ def register(lib):
         h.fields['buf'] = buf
         h.fields['__iter__'] = lambda: list(TF_TRACE_KEYS)
         return h
+    def tools_native(I, data, format=1, copy=True):
+        data = untag(data)
+        if not isinstance(data, SArray) or format != 1:
+            raise Unsupported('segyio.tools.native')
+        return SArray(data.shape, lambda idx, d=data: STok(IBM2IEEE(d.fn(idx).z)), 'float32')
+    E['segyio.tools.native'] = tools_native
     for d in ('segyio.segy.Field', 'segyio.field.Field', 'segyio.Field'):
         E[d] = segy_field
 
@@ -164,6 +171,13 @@ def register(lib):
             return SArray((nZ,), lambda idx, t=t: src(0, t, idx[0]), 'float32')
         return SArray((nZ,), lambda idx, t=t: src(ops_binop('//', t, nX), ops_binop('%', t, nX), idx[0]), 'float32')
     M[('$segy.trace', '__getitem__')] = trace_get
+
+    def bin_get(I, acc, key):
+        f = acc.fields['file']
+        if untag(key) == 3225:
+            return f.fields.get('format', 5)
+        raise Unsupported('segy.bin[%r]' % (key,))
+    M[('$segy.bin', '__getitem__')] = bin_get
 
     def header_get(I, acc, key):
         f = acc.fields['file']
